@@ -90,7 +90,7 @@ def check_signed(model, col, rule):
     # the generator hands constants to i32.const and indices to local.get/set
     gc = model.func(GEN, "_GenerateConstant")
     ints = [c for c in ast.walk(gc) if isinstance(c, ast.Call) and last_attr(c) == "Instruction" and "i32.const" in unparse(c)]
-    col.check(bool(ints) and "cv.Value" in unparse(ints[0]), rule, f"{GEN}::_GenerateConstant", "integer constants become i32.const with the value as immediate", None, GEN, gc)
+    col.check(bool(ints) and f"{gc.args.args[0].arg}.Value" in unparse(ints[0]), rule, f"{GEN}::_GenerateConstant", "integer constants become i32.const with the value as immediate", None, GEN, gc)
     return has_signed
 
 
